@@ -1,25 +1,13 @@
-import os
 from specs import KEYS, CHECKS, unit
 
 # Built together with harness/keepstore_c02 (shared helpers, the hook file and
 # the instrumented unix_volume.go come from that key).
 KEYS['keepstore_c04'] = {'pkg': 'services/keepstore', 'with': ['keepstore_c02']}
 
-# Harness development aid only: VERIF_C04_ASSUME_KNOWN=<key> activates a
-# known-finding classifier without a known_findings.txt line (used to run the
-# sensitivity mutants before the lead listed the finding). Never set by ./check.
-_dev_env = {}
-if os.environ.get('VERIF_C04_ASSUME_KNOWN'):
-    _dev_env = {'VERIF_KNOWN': os.environ['VERIF_C04_ASSUME_KNOWN']}
 
 
 def _cfg(d):
-    d = dict(d)
-    e = dict(d.get('env', {}))
-    e.update(_dev_env)
-    if e:
-        d['env'] = e
-    return d
+    return dict(d)
 
 
 CHECKS['C04'] = {
